@@ -95,6 +95,25 @@ def run(ck, prog, tier, load):
                 elif kind == "update":
                     from_req = any(r[0] == "arg" and r[2] == "req" for a in e for r in e_roots(a))
                     ck.ob("C11-a.provenance", f, from_req, call, bb, "%s.update(..) takes the incoming request's URI" % f)
+    # sibling agreement: whatever the fresh-object branch takes from the incoming request, the pooled branch installs too
+    def sources(e):
+        return {c[1] for c in e_calls(e, r"^actix_http::requests::request::Request::") if any(r[0] == "arg" and r[2] == "req" for r in e_roots(c))}
+
+    fresh = [t for bb, t in call.calls(r"^actix_web::request::HttpRequest::new$")]
+    ck.anchor("C11-a", len(fresh), 1, "HttpRequest::new in AppInitService::call")
+    s_new = set()
+    for t in fresh:
+        for a in t["args"]:
+            s_new |= sources(call.op_expr(a))
+    s_pool = set()
+    for f in fields:
+        for bb, (kind, e) in field_resets(prog, call, f).items():
+            if not call.must_pass(some_edges, handoff, [bb])[0]:
+                continue
+            for x in ([e] if kind == "assign" else list(e)):
+                s_pool |= sources(x)
+    ck.ob("C11-a.pooled-equals-fresh", "request-derived inputs", bool(s_new) and s_new <= s_pool, call, some_edges[0],
+          "request-derived inputs of the fresh branch %s are all installed by the pooled branch %s" % (sorted(x.split("::")[-1] for x in s_new), sorted(x.split("::")[-1] for x in s_pool)))
     # app_data cut to root
     ad = field_resets(prog, drop, "app_data")
     okt = any(k == "truncate" and a and a[0][:3] == ("const", None, 1) for k, a in ad.values())
